@@ -232,16 +232,46 @@ Proof using u_range fsub_ok fdiv_ok.
   lra.
 Qed.
 
-(* the drift term from coordinate-wise Lipschitz constants of f_i *)
+(* the drift term from coordinate-wise Lipschitz constants of f_i at the exact point x + d e_j, on the drift box *)
 Lemma drift_lipschitz_lemma (x : list R) (d : R) (j : nat) (fi : list R -> R) (L : nat -> R) :
   (j < length x)%nat -> (forall k, 0 <= L k) ->
-  (forall p p', length p = length x -> length p' = length x ->
-     Rabs (fi p - fi p') <= Rsum (length x) (fun k => L k * Rabs (nth k p 0 - nth k p' 0))) ->
+  (forall p, length p = length x ->
+     (forall k, Rabs (nth k p 0 - nth k (xpt x j d) 0) <= drift_bound x d j k) ->
+     Rabs (fi p - fi (xpt x j d)) <= Rsum (length x) (fun k => L k * Rabs (nth k p 0 - nth k (xpt x j d) 0))) ->
   Rabs (fi (call_pt OM x d j) - fi (xpt x j d)) <= Rsum (length x) (fun k => L k * drift_bound x d j k).
 Proof using u_range fadd_ok fsub_ok.
   intros Hj HL Hlip.
-  eapply Rle_trans; [apply Hlip; [exact (call_pt_length OM x d j)|unfold xpt; apply upd_list_length]|].
+  eapply Rle_trans; [apply Hlip; [exact (call_pt_length OM x d j)|intros k; now apply call_pt_drift]|].
   apply Rsum_le. intros k Hk. apply Rmult_le_compat_l; [apply HL|]. now apply call_pt_drift.
 Qed.
+
+(* the same statements with [drift_bound] and [xpt] spelled out *)
+Lemma jacobian_call_points_drift_explicit (F : list R -> res (list R)) (x : list R) (d : R) (st : list R) (J : matrix AM) evs :
+  jacobian_tr OM F x d = Ok (st, J, evs) ->
+  evs = x :: map (call_pt OM x d) (seq 0 (length x)) /\
+  (forall j k, (j < length x)%nat ->
+     Rabs (nth k (call_pt OM x d j) 0 - (if k =? j then nth j x 0 + d else nth k x 0)) <=
+       (if k =? j then u * Rabs (nth k x 0 + d)
+        else if k <? j then (2 * u + u * u) * (Rabs (nth k x 0) + Rabs d) else 0)) /\
+  length st = length x /\
+  (forall k, Rabs (nth k st 0 - nth k x 0) <= (2 * u + u * u) * (Rabs (nth k x 0) + Rabs d)).
+Proof using u_range fadd_ok fsub_ok.
+  intros H. destruct (jacobian_call_points_drift_lemma F x d st J evs H) as (Ev & Hd & Ls & Hs).
+  split; [exact Ev|]. split; [|split; assumption].
+  intros j k Hj. specialize (Hd j k Hj). rewrite xpt_nth in Hd by exact Hj. exact Hd.
+Qed.
+
+Lemma drift_lipschitz_explicit (x : list R) (d : R) (j : nat) (fi : list R -> R) (L : nat -> R) :
+  (j < length x)%nat -> (forall k, 0 <= L k) ->
+  (forall p, length p = length x ->
+     (forall k, Rabs (nth k p 0 - nth k (upd_list x j (nth j x 0 + d)) 0) <=
+        (if k =? j then u * Rabs (nth k x 0 + d)
+         else if k <? j then (2 * u + u * u) * (Rabs (nth k x 0) + Rabs d) else 0)) ->
+     Rabs (fi p - fi (upd_list x j (nth j x 0 + d))) <=
+       Rsum (length x) (fun k => L k * Rabs (nth k p 0 - nth k (upd_list x j (nth j x 0 + d)) 0))) ->
+  Rabs (fi (call_pt OM x d j) - fi (upd_list x j (nth j x 0 + d))) <=
+    Rsum (length x) (fun k => L k * (if k =? j then u * Rabs (nth k x 0 + d)
+                                     else if k <? j then (2 * u + u * u) * (Rabs (nth k x 0) + Rabs d) else 0)).
+Proof using u_range fadd_ok fsub_ok. exact (drift_lipschitz_lemma x d j fi L). Qed.
 
 End JacRound.
